@@ -511,6 +511,8 @@ def classify_c16(rej, line):
         err = line.get("s", {}).get("err") or ""
         if "Create a new file" in err:          # badger/ristretto: a zero-length log file left by a kill between its creation and its sizing
             why = "zero-length-" + ("memtable-wal" if "opening memtables" in err else "value-log" if "vlog" in err else "file")
+        elif "in use" in err.lower() and "directory lock" not in err:
+            why = "store-reported-in-use"          # Open itself refuses (e.g. because of the pid file a killed process left behind)
         elif "directory lock" in err:
             why = "directory-lock-held"
         else:
